@@ -6,14 +6,18 @@
 namespace sdk {
 
 static int null_logger(void *, int, const char *) { return KSI_OK; }
+// a failing log sink (a full or record-bounded log device): the status a logger callback returns must not decide any result
+static int refusing_long_logger(void *, int, const char *m) { return m && strlen(m) > 1500 ? KSI_IO_ERROR : KSI_OK; }
+static int refusing_all_logger(void *, int, const char *) { return KSI_IO_ERROR; }
 static int stderr_logger(void *, int lvl, const char *m) { fprintf(stderr, "SDK[%d] %s\n", lvl, m); return KSI_OK; }
 
 KSI_CTX *new_ctx(int loglevel) {
 	KSI_CTX *ctx = nullptr;
 	if (KSI_CTX_new(&ctx) != KSI_OK) return nullptr;
 	if (getenv("VERIF_SDKLOG")) { KSI_CTX_setLoggerCallback(ctx, stderr_logger, nullptr); loglevel = 5; }
-	else KSI_CTX_setLoggerCallback(ctx, null_logger, nullptr);
-	KSI_CTX_setLogLevel(ctx, loglevel);
+	else KSI_CTX_setLoggerCallback(ctx, loglevel == 6 ? refusing_long_logger : loglevel == 7 ? refusing_all_logger : null_logger, nullptr);
+	// levels 6 and 7: debug level with a sink that refuses long records / every record
+	KSI_CTX_setLogLevel(ctx, loglevel > 5 ? 5 : loglevel);
 	return ctx;
 }
 
